@@ -1,6 +1,7 @@
 import SszModel.Text
 import SszModel.Serde
 import SszModel.BitMachine
+import SszModel.Alloc
 /-
   One request per line on stdin (tab separated), one answer per line on stdout.
 -/
@@ -81,6 +82,10 @@ def answer (fields : List String) : String :=
       resStr hexList r ++ " calls=" ++ hexList tr.calls ++ " hint=" ++
         (match tr.sizeHint with | some n => toString n | none => "-")
     | _, _, _ => "bad-request"
+  | ["alloc", ty, hex] =>
+    match tyOfString ty, fromHex hex with
+    | some t, some b => toString (allocUnits t b)
+    | _, _ => "bad-request"
   | ["bitops", kind, ops] =>
     match parseKind kind with
     | some k => runBitOps k ops
